@@ -257,6 +257,20 @@ pub struct ExecOut {
     pub trace: Vec<String>,
     pub decisions: Vec<u32>,
     pub arities: Vec<u32>,
+    /// number of polls of the outermost combinator / operation in this execution
+    pub root_polls: usize,
+    /// script length per leaf (engine A), for the systematic fault sweep
+    pub leaf_lens: Vec<usize>,
+}
+
+/// A fault imposed on an otherwise generated case (systematic crash-point sweep, `fcv allk`).
+#[derive(Clone, Copy, Debug, PartialEq, Eq)]
+pub enum Fault {
+    None,
+    /// drop the combinator after exactly this many polls
+    CancelAt(usize),
+    /// leaf (in construction order) panics at this position of its script
+    PanicAt(usize, usize),
 }
 
 pub fn describe_case(c: &CaseA) -> String {
@@ -272,12 +286,30 @@ pub const STEP_CAP: usize = 6000;
 
 /// Run one execution; the world must have been `reset` by the caller with the decision source.
 pub fn run(p: &Profile, record_decisions: bool) -> ExecOut {
-    let case = w(|w| {
+    run_fault(p, record_decisions, Fault::None)
+}
+
+/// Generate the case from the decision source, then impose `fault` on it. With `cancel_pct == panic_pct == 0`
+/// the generator draws nothing for faults, so the same seed yields the same case and the same schedule up to
+/// the fault point for every `fault`.
+pub fn run_fault(p: &Profile, record_decisions: bool, fault: Fault) -> ExecOut {
+    let mut case = w(|w| {
         w.record_decisions = record_decisions;
         w.midfire_pct = p.midfire_pct;
         gen_case(w, p)
     });
-    run_case(p, &case)
+    match fault {
+        Fault::None => {}
+        Fault::CancelAt(k) => case.cancel_at = Some(k),
+        Fault::PanicAt(i, at) => {
+            if i < case.leaves.len() && !case.leaves[i].always_ready && at <= case.leaves[i].script.len() {
+                case.leaves[i].script.insert(at, Step::Panic);
+            }
+        }
+    }
+    let mut o = run_case(p, &case);
+    o.leaf_lens = case.leaves.iter().map(|l| l.script.iter().take_while(|s| **s != Step::PendNever).count()).collect();
+    o
 }
 
 pub fn run_case(p: &Profile, case: &CaseA) -> ExecOut {
@@ -531,6 +563,7 @@ pub fn finish(out: &mut ExecOut, dropper: Option<Box<dyn FnOnce()>>, received: V
         let polls = w.st.root_polls - polls0;
         let pend = w.st.child_pending - pend0;
         out.nontrivial = (polls >= 2 && pend >= 1) || (cancelled && pend >= 1) || w.injected_seen;
+        out.root_polls = polls as usize;
         if w.record_decisions {
             out.decisions = w.taken.clone();
             out.arities = w.arities.clone();
